@@ -114,6 +114,23 @@ def run(prop, tier, seed, replay=None):
                 cases.append(c)
         cases.extend(mod.gen(ctx))
 
+    # ---- textual half of the source tie: which anchored functions are not the text the model was written against
+    try:
+        from . import anchors
+        tie = anchors.compare(prop)
+    except Exception as e:           # the sentinel must not decide anything by crashing
+        tie = {"changed": [], "note": f"not compared: {type(e).__name__}: {e}"[:200]}
+    if tie.get("changed") and not replay and os.environ.get("VERIF_NO_ESCALATE") != "1":
+        # the code moved under this property: a second batch under an independent seed
+        n0 = len(cases)
+        try:
+            for c in mod.gen(lib.Ctx(prop, tier, seed + 7919)):
+                c.setdefault("tags", []).append("escalated")
+                cases.append(c)
+        except Exception as e:
+            tie["escalation_failed"] = f"{type(e).__name__}: {e}"[:200]
+        tie["escalated_cases"] = len(cases) - n0
+
     model_problem = None
     if hasattr(mod, "run_case"):
         # per-case pipeline: the module runs implementation and model itself (the model's
@@ -292,6 +309,7 @@ def run(prop, tier, seed, replay=None):
         "trusted_base_extra": getattr(mod, "TRUSTED_EXTRA", []),
     }
     cov.update(extra_info)
+    cov["source_text_tie"] = tie
     lib.write_evidence(ctx, proof, cov, getattr(mod, "ASSUMPTIONS", []), len(violations))
     if replay and not violations:
         print(f"replay {replay}: no longer fails")
